@@ -103,7 +103,7 @@ TraceNext ==
   /\ l <= Len(Evs)
   /\ LET ev == Evs[l]
          bad == IF ev.op = "law" /\ ev.exc = ""
-                  THEN (IF regs[ev.a].table # regs[ev.b].table THEN {<<"C14", ev.law>>} ELSE {})
+                  THEN (IF regs[ev.a].table # regs[ev.b].table THEN {<<ev.law_pid, ev.law>>} ELSE {})   \* C14 laws / C13 interchangeability
                   ELSE Failing(ev)
      IN /\ (bad # {} => PrintT(<<"REJECT", Sessions[sid].sid, l, bad>>))
         /\ regs' = Append(regs, IF ev.exc # "" \/ ev.op = "law"
